@@ -214,3 +214,228 @@ func fieldNames(m map[*types.Var]bool) string {
 	}
 	return strings.Join(out, ",")
 }
+
+// checkTargetIndexAgreement (g): the optimiser's decisions and the translator's look-ups meet through PatternTarget /
+// TraversalStepTarget keys (query part, clause, pattern, step).  Every producer of such a key must number clauses the
+// same way — by the position in the reading-clause list, i.e. the key variable of the `range` over it.  A producer that
+// keeps its own counter (incremented only for MATCH clauses) agrees with the others until an UNWIND precedes a MATCH;
+// then the translator finds the decision planned for the previous MATCH, prunes a binding the later MATCH needs, and
+// the statement references an identifier that no FROM item defines.
+func checkTargetIndexAgreement(r *Run) {
+	const rule = "C03-g-target-index"
+	n := 0
+	for _, rel := range []string{"cypher/models/pgsql/optimize", "cypher/models/pgsql/translate"} {
+		p := r.MustPkg(rel)
+		info := p.TypesInfo
+		for _, f := range p.Syntax {
+			for _, d := range f.Decls {
+				fd, ok := d.(*ast.FuncDecl)
+				if !ok || fd.Body == nil {
+					continue
+				}
+				// range keys and parameters of this function
+				rangeKeys := map[types.Object]bool{}
+				params := map[types.Object]bool{}
+				if fd.Type.Params != nil {
+					for _, pl := range fd.Type.Params.List {
+						for _, nm := range pl.Names {
+							params[info.Defs[nm]] = true
+						}
+					}
+				}
+				ast.Inspect(fd.Body, func(x ast.Node) bool {
+					if rs, ok := x.(*ast.RangeStmt); ok {
+						if id, ok := rs.Key.(*ast.Ident); ok && id.Name != "_" {
+							rangeKeys[info.Defs[id]] = true
+						}
+					}
+					if fl, ok := x.(*ast.FuncLit); ok && fl.Type.Params != nil {
+						for _, pl := range fl.Type.Params.List {
+							for _, nm := range pl.Names {
+								params[info.Defs[nm]] = true
+							}
+						}
+					}
+					return true
+				})
+				ast.Inspect(fd.Body, func(x ast.Node) bool {
+					cl, ok := x.(*ast.CompositeLit)
+					if !ok {
+						return true
+					}
+					tn := namedName(info.TypeOf(cl))
+					if tn != "PatternTarget" && tn != "TraversalStepTarget" {
+						return true
+					}
+					for _, el := range cl.Elts {
+						kv, ok := el.(*ast.KeyValueExpr)
+						if !ok {
+							continue
+						}
+						k, ok := kv.Key.(*ast.Ident)
+						if !ok || k.Name != "ClauseIndex" {
+							continue
+						}
+						n++
+						construct := shortPkg(p.PkgPath) + "." + funcDeclName(fd) + ":" + tn + ".ClauseIndex"
+						val := ast.Unparen(kv.Value)
+						okv := false
+						how := exprString(r.Fset, val)
+						switch v := val.(type) {
+						case *ast.Ident:
+							obj := info.Uses[v]
+							okv = rangeKeys[obj] || params[obj]
+						case *ast.SelectorExpr:
+							okv = true // copied from another target
+						case *ast.BasicLit:
+							okv = true // a fixed clause of a recognised shape
+						}
+						if tv, has := info.Types[val]; has && tv.Value != nil {
+							okv = true
+						}
+						if okv {
+							r.Pass(rule, construct, kv.Pos(), "the clause index is the position in the reading-clause list (%s)", how)
+						} else {
+							r.Fail(rule, construct, kv.Pos(), "the clause index %s is a counter kept by this function, not the position in the reading-clause list that the other producers of %s use: as soon as a clause without a pattern (UNWIND) precedes a MATCH the keys disagree and the translator applies the decision planned for a different MATCH", how, tn)
+						}
+					}
+					return true
+				})
+			}
+		}
+	}
+	if n < 4 {
+		r.Undecide("C03-g: expected several producers of PatternTarget/TraversalStepTarget keys, found %d", n)
+	}
+}
+
+// checkSnapshotRelinks (h): bindings refer to each other through BoundIdentifier.Dependencies (a path depends on its
+// nodes and edges).  A snapshot of the scope copies every binding; the copies' dependency pointers must be re-pointed at
+// the copies, otherwise the restored path still depends on the live node bindings, whose LastProjection by then names a
+// CTE that only exists inside the sub-select translated in between.
+func checkSnapshotRelinks(r *Run) {
+	const rule = "C03-h-snapshot-relinks"
+	p := r.MustPkg("cypher/models/pgsql/translate")
+	info := p.TypesInfo
+	fd := FuncDecls(p)["Scope.Snapshot"]
+	if fd == nil || fd.Body == nil {
+		r.Undecide("C03-h: Scope.Snapshot not found")
+		return
+	}
+	relinks := false
+	ast.Inspect(fd.Body, func(x ast.Node) bool {
+		as, ok := x.(*ast.AssignStmt)
+		if !ok {
+			return true
+		}
+		for _, l := range as.Lhs {
+			if ix, ok := ast.Unparen(l).(*ast.IndexExpr); ok {
+				if sel, ok := ast.Unparen(ix.X).(*ast.SelectorExpr); ok && sel.Sel.Name == "Dependencies" {
+					if s := info.Selections[sel]; s != nil && s.Kind() == types.FieldVal {
+						relinks = true
+					}
+				}
+			}
+		}
+		return true
+	})
+	if relinks {
+		r.Pass(rule, "Scope.Snapshot", fd.Pos(), "the copied bindings' dependency pointers are re-pointed inside Snapshot")
+	} else {
+		r.Fail(rule, "Scope.Snapshot", fd.Pos(), "Snapshot copies the bindings but leaves their Dependencies pointing at the live bindings: after an isolated sub-translation is restored, a path binding is rendered from its live node bindings, whose LastProjection names a CTE of the sub-select — the statement references a frame that is not in scope")
+	}
+}
+
+// checkFrameGuardAgreement (i): a reference qualified by a frame (sK.nX) is valid only if that frame carries the
+// binding.  Where a function guards such a reference with `<frame>.Known().Contains(id)`, the guard must ask the frame
+// that the reference names; asking a neighbouring frame (the step's own frame instead of the previous one) lets through
+// bindings the named frame does not have.
+func checkFrameGuardAgreement(r *Run) {
+	const rule = "C03-i-frame-guard"
+	p := r.MustPkg("cypher/models/pgsql/translate")
+	info := p.TypesInfo
+	n := 0
+	for _, f := range p.Syntax {
+		for _, d := range f.Decls {
+			fd, ok := d.(*ast.FuncDecl)
+			if !ok || fd.Body == nil {
+				continue
+			}
+			// local aliases: v := <expr>
+			alias := map[types.Object]ast.Expr{}
+			ast.Inspect(fd.Body, func(x ast.Node) bool {
+				if as, ok := x.(*ast.AssignStmt); ok && as.Tok == token.DEFINE && len(as.Lhs) == len(as.Rhs) {
+					for i, l := range as.Lhs {
+						if id, ok := l.(*ast.Ident); ok {
+							alias[info.Defs[id]] = as.Rhs[i]
+						}
+					}
+				}
+				return true
+			})
+			var norm func(e ast.Expr, depth int) string
+			norm = func(e ast.Expr, depth int) string {
+				e = ast.Unparen(e)
+				if id, ok := e.(*ast.Ident); ok && depth < 4 {
+					if rhs, has := alias[info.Uses[id]]; has {
+						return norm(rhs, depth+1)
+					}
+				}
+				if sel, ok := e.(*ast.SelectorExpr); ok {
+					return norm(sel.X, depth) + "." + sel.Sel.Name
+				}
+				return exprString(r.Fset, e)
+			}
+			var refFrames, guardFrames []string
+			var refPos token.Pos
+			ast.Inspect(fd.Body, func(x ast.Node) bool {
+				switch y := x.(type) {
+				case *ast.CompositeLit:
+					if namedName(info.TypeOf(y)) == "CompoundIdentifier" && len(y.Elts) >= 2 {
+						// <frame>.Binding.Identifier
+						if sel, ok := ast.Unparen(y.Elts[0]).(*ast.SelectorExpr); ok && sel.Sel.Name == "Identifier" {
+							if in2, ok := ast.Unparen(sel.X).(*ast.SelectorExpr); ok && in2.Sel.Name == "Binding" && namedName(info.TypeOf(in2.X)) == "Frame" {
+								refFrames = append(refFrames, norm(in2.X, 0))
+								refPos = y.Pos()
+							}
+						}
+					}
+				case *ast.CallExpr:
+					if sel, ok := y.Fun.(*ast.SelectorExpr); ok && sel.Sel.Name == "Contains" {
+						if inner, ok := ast.Unparen(sel.X).(*ast.CallExpr); ok {
+							if s2, ok := inner.Fun.(*ast.SelectorExpr); ok && (s2.Sel.Name == "Known") && namedName(info.TypeOf(s2.X)) == "Frame" {
+								guardFrames = append(guardFrames, norm(s2.X, 0))
+							}
+						}
+					}
+				}
+				return true
+			})
+			if len(refFrames) == 0 || len(guardFrames) == 0 {
+				continue
+			}
+			n++
+			construct := funcDeclName(fd)
+			agree := true
+			for _, rf := range refFrames {
+				found := false
+				for _, gf := range guardFrames {
+					if gf == rf {
+						found = true
+					}
+				}
+				if !found {
+					agree = false
+				}
+			}
+			if agree {
+				r.Pass(rule, construct, refPos, "the frame that is asked (%v) is the frame the reference names", guardFrames)
+			} else {
+				r.Fail(rule, construct, refPos, "the reference is qualified by %v but the guard asks %v: a binding that the step's own frame knows and the named frame does not (a node introduced by the same pattern) passes the guard, and the statement references a column the named CTE does not have", refFrames, guardFrames)
+			}
+		}
+	}
+	if n == 0 {
+		r.Undecide("C03-i: no function that guards a frame-qualified reference with Known().Contains found")
+	}
+}
